@@ -320,9 +320,6 @@ def judge_c02(x, meta, mscript, attrs, stages):
         if st not in FINAL:
             bad.append(('after run() returned, %s is in non-final state %r' % (n, st), 'C02:non-final:%s' % st))
             continue
-        if not f.get('in_done'):
-            bad.append(('after run() returned, the controller never recorded the termination of %s (%s)' % (n, st),
-                        'C02:not-recorded'))
     if bad:
         return bad
     if not unrecoverable:
